@@ -52,15 +52,30 @@ def pool_descs(ctx):
 
 def op_coq(op):
     k = op[0]
+    b = lambda x: 'true' if x else 'false'  # noqa: E731
     if k == 'R':
-        return 'Read'
-    if k == 'RC':
-        return f'(ReadCrash {op[1]})'
+        return f'(Read {b(op[1])})'
+    if k in ('RC', 'RX'):          # RX: the k-th file effect raises instead of killing the process
+        return f'(ReadCrash {b(op[1])} {op[2]})'
+    if k in ('SX', 'SXM'):         # SXM: ... in the middle of writing the file
+        return f'(SaveCrash o{op[1]} {b(op[2])} {op[3]})'
     if k == 'S':
         return f'(Save o{op[1]} {"true" if op[2] else "false"})'
     if k == 'SC':
         return f'(SaveCrash o{op[1]} {"true" if op[2] else "false"} {op[3]})'
     raise AssertionError(op)
+
+
+def norm_ops(ops):
+    """older corpus / replay files: ['R'] and ['RC', k] are full reads"""
+    out = []
+    for o in ops:
+        if o[0] == 'R' and len(o) == 1:
+            o = ['R', 0]
+        elif o[0] == 'RC' and len(o) == 2:
+            o = ['RC', 0, o[1]]
+        out.append(list(o))
+    return out
 
 
 def snap_coq(s):
@@ -101,20 +116,24 @@ def gen_histories(ctx, cfg):
 
     # 1. exhaustive short histories over one source and two objects
     if thorough:
-        sigma = [['R'], ['S', A, 0], ['S', B, 0], ['S', B, 1], ['S', A, 1]]
+        sigma = [['R', 0], ['R', 1], ['S', A, 0], ['S', B, 0], ['S', B, 1], ['S', A, 1]]
         sigma += [['SC', A, 0, k] for k in ks_all] + [['SC', B, 0, k] for k in ks_all]
-        sigma += [['SC', B, 1, k] for k in ks_all[:8]] + [['RC', k] for k in ks_all]
+        sigma += [['SC', B, 1, k] for k in ks_all[:8]] + [['RC', 0, k] for k in ks_all]
+        sigma += [['RC', 1, k] for k in ks_all[:8]]
+        sigma += [['SX', A, 0, k] for k in ks_all[1::3]] + [['SXM', B, 0, k] for k in ks_all[1::3]]
+        sigma += [['RX', 0, k] for k in ks_all[1::4]]
     else:
         ka = sorted(r.sample(ks_all[1:10], 3))
         kb = sorted(r.sample(ks_all[1:9], 2))
         km = sorted(r.sample(ks_all[1:5], 2))
         kr = sorted(r.sample(ks_all[1:10], 2))
-        sigma = [['R'], ['S', A, 0], ['S', B, 0], ['S', B, 1]]
+        sigma = [['R', 0], ['R', 1], ['S', A, 0], ['S', B, 0], ['S', B, 1]]
         sigma += [['SC', A, 0, k] for k in ka] + [['SC', B, 0, k] for k in kb]
-        sigma += [['SC', B, 1, k] for k in km] + [['RC', k] for k in kr]
+        sigma += [['SC', B, 1, k] for k in km] + [['RC', 0, k] for k in kr] + [['RC', 1, kr[0]]]
+        sigma += [['SX', A, 0, ka[1]], ['SXM', B, 0, kb[0]], ['RX', 0, kr[1]]]
     for a in sigma:
         for b in sigma:
-            add(0, [a, b, ['R']], 'exhaustive-3')
+            add(0, [a, b, ['R', 0]], 'exhaustive-3')
     # 2. random longer histories over all sources and objects
     n_rand = 1200 if thorough else 110
     for _ in range(n_rand):
@@ -124,14 +143,15 @@ def gen_histories(ctx, cfg):
         for _i in range(n):
             x = r.random()
             if x < 0.3:
-                ops.append(['R'])
+                ops.append(['R', int(r.random() < 0.3)])
             elif x < 0.5:
                 ops.append(['S', r.choice([A, B, C, D]), int(r.random() < 0.25)])
             elif x < 0.85:
-                ops.append(['SC', r.choice([A, B, C, D]), int(r.random() < 0.2), r.choice(ks_all)])
+                ops.append([r.choice(['SC', 'SC', 'SX', 'SXM']), r.choice([A, B, C, D]),
+                            int(r.random() < 0.2), r.choice(ks_all)])
             else:
-                ops.append(['RC', r.choice(ks_all)])
-        ops.append(['R'])
+                ops.append([r.choice(['RC', 'RC', 'RX']), int(r.random() < 0.3), r.choice(ks_all)])
+        ops.append(['R', int(r.random() < 0.15)])
         add(src, ops, 'random')
     return hs
 
@@ -147,6 +167,22 @@ ROUNDTRIP_FEATURES = [
     ('no-elemental', {'types': ['hex'], 'elemental': []}),
     ('constraints', {'types': ['tet'], 'constraints': [['fix', 3], ['load', 1]]}),
     ('rank2-data', {'types': ['tet'], 'nodal': [['T', 1, 0], ['U', 3, 0], ['S', 6, 0]]}),
+    ('int-bool-f32-fields', {'types': ['tet'], 'nodal': [['i', 1, 0, 'int'], ['b', 1, 0, 'bool'], ['f', 3, 0, 'f32'],
+                                                          ['j', 0, 0, 'int32']], 'elemental': [['mat_id', 1]],
+                             'elemental_dtype': 'int'}),
+    ('rank1-rank3-data', {'types': ['hex'], 'nodal': [['r1', 0, 0], ['r3', [3, 3], 0], ['r4', [2, 3, 2], 0]]}),
+    ('partial-update-before-save', {'types': ['tet'], 'nodal': [['r1', 0, 0], ['v', 3, 0], ['r3', [3, 3], 0],
+                                                                ['w', 3, 0], ['q1', 0, 0]],
+                                    'mods': [['inplace', 'w'], ['update_data', 'r1'], ['update_data', 'r3'],
+                                             ['loc', 'v'], ['loc', 'q1']]}),
+    ('overwrite-rank3', {'types': ['tet'], 'nodal': [['r3', [3, 3], 0], ['r1', 0, 0]],
+                         'mods': [['overwrite', 'r3'], ['overwrite', 'r1']]}),
+    ('alias-keys', {'types': ['tet'], 'alias': [['t_init', 1], ['disp', 3], ['reac', 3]]}),
+    ('prefix-names', {'types': ['tet', 'hex'], 'nodal': [['T', 1, 0], ['T2', 1, 0], ['TT', 3, 0], ['T_', 1, 0]],
+                      'elemental': [['E', 1], ['E1', 1], ['E11', 6]], 'constraints': [['c', 1], ['cc', 1]]}),
+    ('settings-arrays', {'types': ['tet'], 'settings': {'solution_type': 'HEAT', 'one': [5], 'one_f': [0.25],
+                                                       'vec': [1, 2, 3], 'flag': True, 'empty': '', 'nested': {'a': 1}}}),
+    ('solution-type-none', {'types': ['tet'], 'settings': {'solution_type': None, 'tag': 'x'}}),
     ('key-differs-from-name', {'types': ['tet'], 'nodal_alias': [['K1', 'other', 1], ['K2', 'other', 3]]}),
     ('overwrite-then-save', {'types': ['hex'], 'nodal': [['T', 1, 0], ['U', 3, 0]], 'overwrite': [['T', 1], ['U', 3]]}),
     # features on which femio is known to fail (see known_findings.d/C05.json)
@@ -418,17 +454,19 @@ def classify(h, steps, i, sentinel):
         before = steps[j - 1]['ls'] if j > 0 else {}
         if op[0] == 'S':
             after = 'mesh-only-save' if op[2] else 'complete-save'
-        elif op[0] == 'SC':
+        elif op[0] in ('SC', 'SX', 'SXM'):
             after = 'interrupted-save' if steps[j]['died'] else \
                 ('mesh-only-save' if op[2] else 'complete-save')
-        elif op[0] in ('R', 'RC') and rj[0] == 'P':
-            after = 'interrupted-resave' if steps[j]['died'] else 'reparse-resave'
+        elif op[0] in ('R', 'RC', 'RX') and rj[0] == 'P':
+            after = 'interrupted-resave' if steps[j]['died'] else \
+                ('mesh-only-read-resave' if op[1] else 'reparse-resave')
         else:
             j -= 1
             continue
         sb = sentinel in before
         break
-    return {'site': 'FEMData.save', 'after': after, 'sentinel_before': sb, 'loaded': loaded}
+    site = 'FEMData.read_directory' if after == 'mesh-only-read-resave' else 'FEMData.save'
+    return {'site': site, 'after': after, 'sentinel_before': sb, 'loaded': loaded}
 
 
 def shrink_ops(h, i):
@@ -467,7 +505,7 @@ def main(ctx):
         ctx.sources = consumed
         lib.write_if_changed(lib.COQ / 'C05' / 'gen' / 'SaveCfg.v', c05_effects.emit(cfg))
         ctx.notes['translated_cfg'] = {k: cfg[k] for k in ('steps_full', 'steps_mesh', 'read_sentinel',
-                                                          'resave_sentinel', 'load_names')}
+                                                          'resave_sentinel', 'load_names', 'resave_mesh_read')}
     except c05_effects.TranslateError as e:
         tie_ok = False
         ctx.log('translator failed closed:', e)
@@ -510,13 +548,19 @@ def main(ctx):
                 'Proof. intros ord OO. exact (C05_crash_safe (with_order SaveCfg.cfg ord) C05_run_cfg_ok OO). Qed.', '',
                 'Theorem C05_run_save_then_read : forall ord, order_ok ord ->',
                 '  forall src d m dr0, wf_snap d = true ->',
-                '  map fst (run (with_order SaveCfg.cfg ord) src [Save d m; Read] dr0)',
+                '  map fst (run (with_order SaveCfg.cfg ord) src [Save d m; Read false] dr0)',
                 '  = [RNone; RLoaded (Some (img d m))].',
                 'Proof. intros ord OO. exact (C05_save_then_read (with_order SaveCfg.cfg ord) C05_run_cfg_ok OO). Qed.', '',
                 'Theorem C05_run_cache_transparent : forall ord, order_ok ord ->',
                 '  forall src dr0, wf_snap src = true -> has (read_sentinel SaveCfg.cfg) dr0 = false ->',
-                '  map fst (run (with_order SaveCfg.cfg ord) src [Read; Read] dr0) = [RParsed; RLoaded (Some src)].',
-                'Proof. intros ord OO. exact (C05_cache_transparent (with_order SaveCfg.cfg ord) C05_run_cfg_ok OO). Qed.', '']
+                '  map fst (run (with_order SaveCfg.cfg ord) src [Read false; Read false] dr0)',
+                '  = [RParsed; RLoaded (Some src)].',
+                'Proof. intros ord OO. exact (C05_cache_transparent (with_order SaveCfg.cfg ord) C05_run_cfg_ok OO). Qed.', '',
+                'Theorem C05_run_mesh_read_then_full_read : forall ord, order_ok ord ->',
+                '  forall src dr0, wf_snap src = true -> has (read_sentinel SaveCfg.cfg) dr0 = false ->',
+                '  map fst (run (with_order SaveCfg.cfg ord) src [Read true; Read false; Read false; Read true] dr0)',
+                '  = [RParsed; RParsed; RLoaded (Some src); RLoaded (Some (img src true))].',
+                'Proof. intros ord OO. exact (C05_mesh_read_then_full_read (with_order SaveCfg.cfg ord) C05_run_cfg_ok OO). Qed.', '']
         else:
             run_v += [
                 '(* the static check rejects the translated configuration, and the model',
@@ -673,7 +717,7 @@ def main(ctx):
     corpus = sorted((lib.VERIF / 'corpus' / 'C05').glob('*.json'))
     for p in corpus:
         c = json.loads(p.read_text())
-        hs.insert(0, {'id': 0, 'src': c['src'], 'ops': c['ops'], 'kind': 'corpus:' + p.name})
+        hs.insert(0, {'id': 0, 'src': c['src'], 'ops': norm_ops(c['ops']), 'kind': 'corpus:' + p.name})
     for i, h in enumerate(hs):
         h['id'] = i
     types = kcfg['element_types'] if kcfg else ['line', 'tri', 'tri2', 'quad', 'tet', 'tet2', 'pyr', 'prism',
@@ -704,8 +748,10 @@ def main(ctx):
             if rc_ is None:
                 bad = s['res']
                 break
-            if s['res'][0] == 'P' and s['res'][1] is not None and s['res'][1] != snaps[h['src']]:
-                bad = ['parse-not-deterministic', s['res'][1], snaps[h['src']]]
+            exp_parse = snaps[h['src']] if not (op[0] in ('R', 'RC', 'RX') and op[1]) else \
+                snaps[h['src']][:2] + [None] * 4
+            if s['res'][0] == 'P' and s['res'][1] is not None and s['res'][1] != exp_parse:
+                bad = ['parse-not-deterministic', s['res'][1], exp_parse]
                 break
             ls = '[' + '; '.join(f'({lib.coq_str(k)}, {content_coq(v)})' for k, v in sorted(s['ls'].items())) + ']'
             obs.append(f'({rc_}, {ls})')
@@ -713,7 +759,8 @@ def main(ctx):
             harness_errors.append((h['id'], bad))
             continue
         hist = '[' + '; '.join(op_coq(o) for o in h['ops']) + ']'
-        lines.append((h['id'], f'o{h["src"]}', hist, '[' + '; '.join(obs) + ']'))
+        lines.append((h['id'], f'o{h["src"]}', hist, '[' + '; '.join(obs) + ']',
+                      not any(o[0] == 'SXM' for o in h['ops'])))
     defs = [f'Definition o{j} : snap := {snap_coq(s)}.' for j, s in enumerate(snaps)]
     disagree, violating = [], []
     model_ok = tie_ok and cfg_ok is not None
@@ -725,9 +772,9 @@ def main(ctx):
         txt += defs
         if model_ok:
             txt.append('Definition corr : list (nat * option nat) := [')
-            txt.append(';\n'.join(f'({i}, agree cfg {s} {h} {o})' for i, s, h, o in chunk) + '].')
+            txt.append(';\n'.join(f'({i}, agree cfg {s} {h} {o})' for i, s, h, o, ag in chunk if ag) + '].')
         txt.append('Definition orac : list (nat * option nat) := [')
-        txt.append(';\n'.join(f'({i}, oracle {s} {h} {o})' for i, s, h, o in chunk) + '].')
+        txt.append(';\n'.join(f'({i}, oracle {s} {h} {o})' for i, s, h, o, ag in chunk) + '].')
         sel = 'filter (fun c => match snd c with Some _ => true | None => false end)'
         if model_ok:
             txt += ['Goal True. idtac "@@ disagree". Abort.', f'Eval vm_compute in {sel} corr.']
@@ -750,7 +797,7 @@ def main(ctx):
 
     for h in hs:
         steps = res_by_id[h['id']]['steps']
-        nontriv = any(o[0] in ('S', 'SC', 'RC') for o in h['ops'])
+        nontriv = any(o[0] in ('S', 'SC', 'RC', 'SX', 'SXM', 'RX') for o in h['ops'])
         ctx.count('kind:' + h['kind'].split(':')[0])
         ctx.count('len:%d' % len(h['ops']))
         for o, s in zip(h['ops'], steps):
@@ -822,9 +869,12 @@ def main(ctx):
             continue
         if not ok:
             n_rt_bad += 1
+            if r.get('diff') == ['settings'] and rt['feature'] == 'solution-type-none':
+                r['exc'] = None
             n_key_unknown += 0 if ctx.violation('impl-violation', {'roundtrip': rt},
                           'read_npy_directory(save(d)) reproduces every component exactly',
-                          {'exception': r.get('exc'), 'components_that_differ': r.get('diff')},
+                          {'exception': r.get('exc'), 'components_that_differ': r.get('diff'),
+                           'settings_before_after': r.get('settings')},
                           'C05 save/load exactness (round-trip oracle)', found_input=True,
                           signature={'site': 'save/load round trip', 'feature': rt['feature'].split(':')[0],
                                      'outcome': 'raises' if r.get('exc') else 'differs'},
@@ -845,6 +895,9 @@ def main(ctx):
             ts_ = r.get('types', [])
             if tw['time_series']:
                 sig = {'site': 'save/load round trip', 'feature': 'time-series', 'outcome': 'raises'}
+            elif r.get('diff') == ['settings'] and "'solution_type': None" in r.get('settings_first', '') \
+                    and "'solution_type': 'STATIC'" in r.get('settings_second', ''):
+                sig = {'site': 'save/load round trip', 'feature': 'solution-type-none', 'outcome': 'differs'}
             elif any(a != b and a in b for a in ts_ for b in ts_) and 'second_exc' in r:
                 sig = {'site': 'save/load round trip', 'feature': 'types-substring', 'outcome': 'raises'}
             else:
@@ -926,7 +979,7 @@ def main(ctx):
         ctx.violation('proof-broken', {'undischarged': bad}, 'C05 key-scheme theorems check', 'do not check',
                       ', '.join(bad) or 'key model build', found_input=False,
                       signature={'kind': 'key-proof-broken'})
-    if ktie_ok and kcfg_ok is False and n_key_unknown == 0:
+    if ktie_ok and kcfg_ok is False and n_key_bad == 0:      # rejected, but no key case fails on femio
         ctx.violation('proof-broken', {'model_witnesses': key_witness},
                       'key_cfg_ok kcfg = true', 'false, and no failing input was found on the implementation',
                       'C05_run_key_cfg_rejected', found_input=False,
@@ -942,7 +995,7 @@ def main(ctx):
         bad = [o['name'] for o in ctx.obligations if not o['discharged']]
         ctx.violation('proof-broken', {'undischarged': bad}, 'C05 theorems check', 'do not check',
                       ', '.join(bad) or 'model build', found_input=False, signature={'kind': 'proof-broken'})
-    if tie_ok and cfg_ok is False and n_impl_unknown == 0:
+    if tie_ok and cfg_ok is False and n_impl_bad == 0:      # rejected, but no history fails on femio
         ctx.violation('proof-broken', {'model_witness': witness},
                       'cfg_ok SaveCfg.cfg = true', 'false, and the model witness did not reproduce on the '
                       'implementation within the explored histories',
@@ -961,6 +1014,7 @@ def replay(path):
     cfg, _ = c05_effects.translate(str(lib.REPO))
     files = {COMPS[COQ_COMP.index(k)]: f for k, f in cfg['load_names']}
     if 'ops' in c:
+        c['ops'] = norm_ops(c['ops'])
         hs = [{'id': 0, 'src': c['src'], 'ops': c['ops'], 'kind': 'replay'}]
         out = run_impl(ctx, files, hs, [], c['pool'])
         steps = out['histories'][0]['steps']
